@@ -92,6 +92,11 @@ func c10Check(pj *simdjson.ParsedJson, docs []*ref.Node, c Cfg) (string, string)
 	if what, fp := marshalRootFull(pj, docs, c); what != "" {
 		return what, "root/" + fp
 	}
+	if tapeDepth(pj) > 1500 {
+		// addressing every inner value of a very deep document costs O(depth^2) in the harness
+		// itself: root and ForEach marshalling only
+		return marshalForEach(pj, docs)
+	}
 	if what := marshalInner(pj, docs); what != "" {
 		return what, "inner"
 	}
